@@ -220,3 +220,17 @@ CHECKS["C12"] = {
         {"pkg": "root", "run": "TestVF_C12_Forgeries", "rapid": {"quick": 50, "thorough": 500}, "shards": {"quick": 8, "thorough": 16}, "timeout": {"quick": 500, "thorough": 3400}},
     ],
 }
+
+CHECKS["C11"] = {
+    "level": "exploration",
+    "technique": "model-based stateful property testing (rapid state machine over {prepare cache, revoke other, revoke self, update witness, prove+verify, tampered witness}) + forgery enumeration on accepted proofs (alterations, accumulator substitution, transplants between credentials and proofs of one session) + boundary-directed generation for the verifier's revocation-attribute selection; oracle = model of (witness index, revocation point) and ground truth of the accumulator each proof was made against",
+    "level_text": "Every honest proof must verify and the accumulator (index, time, value) a verifier reads from the accepted proof must be the one the witness pointed to at proving time, also when a prepared commitment was refreshed after witness updates; a revoked credential must report ErrorRevoked when updated across its revocation, stay unchanged, and never have a proof accepted against an accumulator at or after its revocation; every enumerated forgery of an accepted proof must be rejected.",
+    "level_note": "Soundness against an arbitrary prover holding a revoked witness is a cryptographic assumption and only sampled through the listed forgeries. The boundary test sets DisclosureProofBuilder.attrRandomizers in-package to a legal small draw.",
+    "rule": ("case = one history, one forgery, or one boundary-directed proof (verified 16 times). Non-trivial: histories containing an accepted proof after a cache refresh or after revoke-self, every forgery, every boundary case; distinct by action sequence / forgery kind / randomiser."),
+    "assumptions": ["the harness plays issuer (private key) and holder"],
+    "units": [
+        {"pkg": "root", "run": "TestVF_C11_Histories", "rapid": {"quick": 60, "thorough": 500}, "steps": {"quick": 10, "thorough": 14},
+         "shards": {"quick": 8, "thorough": 16}, "timeout": {"quick": 500, "thorough": 3400}},
+        {"pkg": "root", "run": "TestVF_C11_Boundary", "rapid": {"quick": 6, "thorough": 60}, "shards": {"quick": 2, "thorough": 8}},
+    ],
+}
